@@ -6,7 +6,11 @@ A_STUBS = ['carquet_arena_calloc', 'carquet_arena_strdup', 'carquet_arena_strndu
 TRUST_R = ['stubs/ptypes_stubs.c: ASSUMED contracts for thrift_read_*/thrift_skip/thrift_decoder_init (cursor monotone and within '
            '[0,size], sticky error status, field_begin consumes >= 1 byte or returns false, list count <= remaining), '
            'carquet_arena_calloc/strdup/strndup/memdup (NULL or fresh object), snprintf, carquet_error_set']
-P = dict(overlays=['contracts/ptypes.ovl'], includes=['.'],
+# the VALIDATE_COUNT / VALIDATE_COUNT_STATUS macros are do { } while (0): goto-cc keeps them as loops; unwound once
+DO_WHILE_0 = ['parquet_parse_file_metadata.0:1', 'parquet_parse_file_metadata.2:1', 'parquet_parse_file_metadata.4:1',
+              'parse_column_metadata.0:1', 'parse_column_metadata.2:1', 'parse_column_metadata.4:1',
+              'parse_column_metadata.7:1', 'parse_row_group.0:1']
+P = dict(overlays=['contracts/ptypes.ovl'], includes=['.'], unwindset=DO_WHILE_0,
          extra_sources=['stubs/mem_stubs.c', 'stubs/ptypes_stubs.c'], trusted=TRUST_R)
 
 
@@ -24,3 +28,10 @@ def parse_jobs(fn, entry, callees=(), loops=1, est=20, **kw):
 
 JOBS = []
 JOBS += parse_jobs('parse_statistics', 'h_parse_statistics')
+JOBS += parse_jobs('parse_logical_type', 'h_parse_logical_type', loops=7)
+JOBS += parse_jobs('parse_schema_element', 'h_parse_schema_element', callees=['parse_logical_type'])
+JOBS += parse_jobs('parse_column_metadata', 'h_parse_column_metadata', callees=['parse_statistics'], loops=7, est=60)
+JOBS += parse_jobs('parse_column_chunk', 'h_parse_column_chunk', callees=['parse_column_metadata'])
+JOBS += parse_jobs('parse_row_group', 'h_parse_row_group', callees=['parse_column_chunk'], loops=2)
+JOBS += parse_jobs('parquet_parse_file_metadata', 'h_parse_file_metadata', callees=['parse_schema_element', 'parse_row_group'], loops=5, est=60)
+JOBS += parse_jobs('parquet_parse_page_header', 'h_parse_page_header', loops=4, est=40)
